@@ -7,6 +7,7 @@ package rt
 import (
 	"context"
 	"errors"
+	"strconv"
 
 	"go.uber.org/cff"
 )
@@ -41,6 +42,9 @@ type H interface {
 	Emitter(k int) cff.Emitter
 	// SharedEmitter returns an emitter value shared by all executions of the run.
 	SharedEmitter() cff.Emitter
+	// EmitterSlice returns a slice of emitters (the first one cff.NopEmitter())
+	// owned by the caller's application and shared by all executions of the run.
+	EmitterSlice() []cff.Emitter
 	Coll(id int) []uint64
 	MapColl(id int) [][2]uint64
 }
@@ -73,6 +77,14 @@ func Pick[T any](h H, k int, ok bool, v, bad T) T {
 	return v
 }
 
+// Mut is a directive argument with a side effect: it overwrites *p and
+// yields v. Arguments that precede it in the source have been evaluated by
+// then, so they never see nv.
+func Mut[T, V any](p *T, nv T, v V) V {
+	*p = nv
+	return v
+}
+
 type hKey struct{}
 
 // WithH stores h in ctx for user functions that are plain top-level
@@ -94,3 +106,22 @@ type Valuer interface{ Val() uint64 }
 
 // ProgFunc is the uniform signature of every generated program.
 type ProgFunc func(ctx context.Context, h H, p []uint64) ([]uint64, error)
+
+// Constructors and projections of flow values of predeclared types.
+func Mk_uint64(x uint64) uint64   { return x }
+func Un_uint64(v uint64) uint64   { return v }
+func Mk_int64(x uint64) int64     { return int64(x) }
+func Un_int64(v int64) uint64     { return uint64(v) }
+func Mk_uintptr(x uint64) uintptr { return uintptr(x) }
+func Un_uintptr(v uintptr) uint64 { return uint64(v) }
+func Mk_string(x uint64) string   { return strconv.FormatUint(x, 36) }
+func Un_string(v string) uint64 {
+	if v == "" {
+		return 0
+	}
+	x, err := strconv.ParseUint(v, 36, 64)
+	if err != nil {
+		return ^uint64(0)
+	}
+	return x
+}
